@@ -90,7 +90,10 @@ impl Prop for Redundancy {
         }
         let (src, an) = try_exec!(analyse_static(env, &cases));
         let reports = match an {
-            Analysed::Fail(f) => return Verdict::Fail(f.detail(json!({"src": src}))),
+            Analysed::Fail(f) => {
+                let d = f.detail.clone();
+                return Verdict::Fail(f.detail(json!({"src": src, "diag": d})));
+            }
             Analysed::Reports(r) => r,
         };
         let mut st = CaseStats::default();
